@@ -59,10 +59,10 @@ def pySlice (s : SliceSpec) (len : Nat) : Slc :=
 def Slc.idx (s : Slc) (k : Nat) : Nat :=
   (if s.rev then s.start - (k : Int) else s.start + (k : Int)).toNat
 
-/-- Position of array index `i` inside the slice, if it is selected. -/
-def Slc.find (s : Slc) (i : Nat) : Option Nat :=
-  let d : Int := if s.rev then s.start - (i : Int) else (i : Int) - s.start
-  if 0 ≤ d ∧ d < (s.count : Int) then some d.toNat else none
+/-- Signed position of array index `i` relative to the slice start, in the direction of travel:
+`i` is selected iff `0 ≤ s.rel i < s.count`, and then it is entry number `s.rel i`. -/
+def Slc.rel (s : Slc) (i : Nat) : Int :=
+  if s.rev then s.start - (i : Int) else (i : Int) - s.start
 
 /-- `slice(None)`. -/
 def SliceSpec.full : SliceSpec := ⟨none, none, false⟩
